@@ -259,6 +259,10 @@ func (r *replayer) validate(ld *loaded, hr *harnessResult, tier string) *validat
 			val.Mismatches++
 			return val
 		}
+		if oc.Outcome == "budget" {
+			// the engine ran into an unwinding bound on this vector: natively it may not terminate; not a validation vector
+			continue
+		}
 		vecs = append(vecs, vec{Values: oc.Values, engine: oc})
 	}
 	val.Vectors = len(vecs)
